@@ -82,8 +82,7 @@ func buildCompactWorld(w obs.AWorld, cores int) (b6.World, error) {
 //
 //	split 1: points in one file; everything else in an overlay file built against the first (paths resolve
 //	         their points in the base)
-//	split 2: two independent files: features are assigned by the parity of their number, but every file gets all
-//	         points (paths need their points' locations at build time)
+//	split 2: three files: points; paths and areas (overlay against the first); relations (overlay against both)
 func buildCompactSplit(w obs.AWorld, cores int, split int) (b6.World, error) {
 	isPoint := func(n string) bool { return n[0] == 'P' }
 	switch split {
@@ -110,9 +109,11 @@ func buildCompactSplit(w obs.AWorld, cores int, split int) (b6.World, error) {
 		if err != nil {
 			return nil, err
 		}
-		for _, t := range []byte{'W', 'A', 'R'} {
-			t := t
-			d, err := buildCompact(features(w, true, func(n string) bool { return n[0] == t }), cores, cw)
+		// paths and the areas over them go into one file (the builder validates an area against the paths of
+		// its own build); relations into a third
+		for _, ts := range []string{"WA", "R"} {
+			ts := ts
+			d, err := buildCompact(features(w, true, func(n string) bool { return strings.IndexByte(ts, n[0]) >= 0 }), cores, cw)
 			if err != nil {
 				return nil, err
 			}
@@ -173,7 +174,7 @@ func runStatic(data json.RawMessage) vh.Verdict {
 	var w b6.World
 	var err error
 	compactFamily := false
-	built := obs.WithDeadline(60*time.Second, func() {
+	built := obs.WithDeadline(240*time.Second, func() {
 		switch c.Impl {
 		case "basic":
 			w, err = buildBasicFromSource(c.Src, cores)
@@ -223,7 +224,7 @@ func runStatic(data json.RawMessage) vh.Verdict {
 		return runDiff(&c, cm, cores)
 	}
 	if !built {
-		return vh.Verdict{OK: false, Key: cm.class + ":build:hang", Msg: "build did not finish within 60 s"}
+		return vh.Verdict{OK: false, Key: cm.class + ":build:hang", Msg: "build did not finish within 240 s"}
 	}
 	if err != nil {
 		return vh.Verdict{OK: false, Key: cm.class + ":build:error", Msg: fmt.Sprintf("build failed on a source whose invalid features should be dropped: %v", err)}
@@ -390,9 +391,26 @@ func runDiff(c *staticCase, cm *comparer, cores int) vh.Verdict {
 			if _, ok := sec.a[n]; !ok {
 				continue
 			}
+			// what a world says about the referrers of a feature it does not contain is not specified, and
+			// FindAreasByPoint is only defined for points
+			if a.Features[n].Kind == "absent" || b.Features[n].Kind == "absent" || (sec.name == "areas" && n[0] != 'P') {
+				continue
+			}
 			if d := listDiff(sec.a[n], sec.b[n]); d != "" {
 				if sec.name == "traverse" {
 					d = "differs"
+					for _, f := range a.Features {
+						if f.Kind == "path" && len(f.Pts) > 2 && f.Pts[0] == f.Pts[len(f.Pts)-1] {
+							for _, p := range f.Pts {
+								if p == n && d == "differs" {
+									d = "inner-point-of-closed-way"
+								}
+							}
+							if f.Pts[0] == n {
+								d = "closing-point-of-closed-way"
+							}
+						}
+					}
 				}
 				add(sec.name, "of-"+kindOfName(n)+":"+d, fmt.Sprintf("%s(%s): basic %v compact %v", sec.name, n, sec.a[n], sec.b[n]))
 			}
